@@ -44,7 +44,8 @@ HOSTILE = {
     "stringPrefix": ["u'a'...u'z'", "b'a'", "r'\\d'", "f'{x}'", "u'a'"],
     "beyondUnicode": ["0x110000", "1114112", "0xffffffff", "'\\U00110000'", "4294967296"],
     "internalName": ["is valid", "is_valid", "validate", "set property", "_header", "__class__", "__init__", "format"],
-    "hugeDigits": ["0x" + "f" * 4000, "9" * 5000, "-" + "9" * 5000, "0..." + "9" * 5000, "1e" + "9" * 30],
+    "hugeDigits": ["0x" + "f" * 4000, "9" * 5000, "-" + "9" * 5000, "0..." + "9" * 5000, "1e" + "9" * 30,
+                   "999999999999999...", "1...3, 999999999999999...", "5000..."],
     "hugeRepetition": ["a{99999999999}", "a{1,99999999999}", "a{65536}"],
     "indentedLines": ["a\n  b\n c", "a\n\tb\n  c", "(\n", "a,\n b"],
     "codecName": ["hex", "utf-16", "idna", "rot13", "base64", "zlib", "punycode", "undefined", "utf-7", "utf-32", "unicode_escape",
